@@ -51,28 +51,42 @@ theorem C04_slice_file_ok_iff (img : Img) (secs : List Sec) (hs : ∀ s ∈ secs
     have hsr := hs s (firstV_some hf).1
     simp only [rangeOne_ok_iff hsr, Option.some.injEq]
     constructor
-    · rintro ⟨h0, hp, ha, o, l, ⟨h1, h2, h3, h4, rfl, rfl⟩, rfl⟩
-      exact ⟨h0, hp, ha, s, rfl, h1, h2, h3, h4, rfl⟩
-    · rintro ⟨h0, hp, ha, s', rfl, h1, h2, h3, h4, rfl⟩
-      exact ⟨h0, hp, ha, _, _, ⟨h1, h2, h3, h4, rfl, rfl⟩, rfl⟩
+    · rintro ⟨h0, hp, ha, o, l, ⟨h1, h2, h3, h4, rfl, rfl⟩, hal, rfl⟩
+      exact ⟨h0, hp, ha, s, rfl, h1, h2, h3, h4, hal, rfl⟩
+    · rintro ⟨h0, hp, ha, s', rfl, h1, h2, h3, h4, hal, rfl⟩
+      exact ⟨h0, hp, ha, _, _, ⟨h1, h2, h3, h4, rfl, rfl⟩, hal, rfl⟩
 
-/-- The window `slice_file` returns always lies inside the buffer, holds at least `min` bytes, has the
-requested alignment *tag*, and starts/ends where the first section containing the rva says.  What
-the code has checked is the alignment of `base + rva`, not of `base + r.off`. -/
-theorem C04_slice_file_sound_bounds (img : Img) (secs : List Sec) (hs : ∀ s ∈ secs, s.InRange)
+/-- A request for more bytes than the raw data holds never succeeds, and what is returned lies
+inside the buffer and is aligned as requested (the C01 obligation of `slice` on file views).
+True since `slice_file` checks the alignment of the bytes it returns (`bytes.as_ptr()`), not only of
+`image.as_ptr() + rva`; before that fix the alignment half failed, see
+`C04_slice_file_formerly_misaligned_rejected`. -/
+theorem C04_slice_file_sound (img : Img) (secs : List Sec) (hs : ∀ s ∈ secs, s.InRange)
     (rva min align : Nat) (hr : rva < 4294967296) (r : Ref)
     (h : sliceFile img secs rva min align = .ok r) :
-    r.off + r.len ≤ img.bytes.size ∧ r.align = align ∧ (img.base + rva) % align = 0 ∧ min ≤ r.len ∧
+    RefOK img r ∧ min ≤ r.len ∧
     ∃ s, firstV secs rva = some s ∧ r.off + r.len = s.prd + s.rs ∧ r.off = s.prd + (rva - s.va) := by
-  obtain ⟨_, _, ha, s, hf, h1, h2, h3, h4, rfl⟩ :=
+  obtain ⟨_, _, _, s, hf, h1, h2, h3, h4, hal, rfl⟩ :=
     (C04_slice_file_ok_iff img secs hs rva min align hr r).1 h
-  refine ⟨?_, rfl, ha, h4, s, hf, ?_, rfl⟩
+  refine ⟨⟨?_, hal⟩, h4, s, hf, ?_, rfl⟩
   · show s.prd + (rva - s.va) + (s.rs - (rva - s.va)) ≤ _
     omega
   · show s.prd + (rva - s.va) + (s.rs - (rva - s.va)) = _
     omega
 
-/-- `RefOK` of the returned window is exactly the alignment of the *file offset*. -/
+/-- The same facts spelled out without `RefOK`, plus what the pre-check established about the rva. -/
+theorem C04_slice_file_sound_bounds (img : Img) (secs : List Sec) (hs : ∀ s ∈ secs, s.InRange)
+    (rva min align : Nat) (hr : rva < 4294967296) (r : Ref)
+    (h : sliceFile img secs rva min align = .ok r) :
+    r.off + r.len ≤ img.bytes.size ∧ r.align = align ∧ (img.base + rva) % align = 0 ∧ min ≤ r.len ∧
+    ∃ s, firstV secs rva = some s ∧ r.off + r.len = s.prd + s.rs ∧ r.off = s.prd + (rva - s.va) := by
+  obtain ⟨⟨hb, _⟩, hm, hex⟩ := C04_slice_file_sound img secs hs rva min align hr r h
+  obtain ⟨_, _, ha, s, _, _, _, _, _, _, rfl⟩ :=
+    (C04_slice_file_ok_iff img secs hs rva min align hr r).1 h
+  exact ⟨hb, rfl, ha, hm, hex⟩
+
+/-- `RefOK` of the returned window is exactly the alignment of the *file offset* (both sides now
+always hold, by `C04_slice_file_sound`). -/
 theorem C04_slice_file_refok_iff (img : Img) (secs : List Sec) (hs : ∀ s ∈ secs, s.InRange)
     (rva min align : Nat) (hr : rva < 4294967296) (r : Ref)
     (h : sliceFile img secs rva min align = .ok r) :
@@ -82,58 +96,30 @@ theorem C04_slice_file_refok_iff (img : Img) (secs : List Sec) (hs : ∀ s ∈ s
   rw [ha]
   exact ⟨fun h => h.2, fun h => ⟨hb, h⟩⟩
 
-/-- Strongest true variant of `C04_slice_file_sound`: the full statement holds as soon as the
-section that maps the rva has `PointerToRawData ≡ VirtualAddress (mod align)` (e.g. both multiples
-of a FileAlignment / SectionAlignment that `align` divides). -/
-theorem C04_slice_file_sound_partial (img : Img) (secs : List Sec) (hs : ∀ s ∈ secs, s.InRange)
-    (rva min align : Nat) (hr : rva < 4294967296) (r : Ref)
-    (h : sliceFile img secs rva min align = .ok r)
-    (hcong : ∀ s, firstV secs rva = some s → s.prd % align = s.va % align) :
-    RefOK img r ∧ min ≤ r.len ∧
-    ∃ s, firstV secs rva = some s ∧ r.off + r.len = s.prd + s.rs ∧ r.off = s.prd + (rva - s.va) := by
-  obtain ⟨hb, _, ha, hm, s, hf, he, ho⟩ := C04_slice_file_sound_bounds img secs hs rva min align hr r h
-  refine ⟨?_, hm, s, hf, he, ho⟩
-  rw [C04_slice_file_refok_iff img secs hs rva min align hr r h, ho]
+/-- When the section that maps the rva has `PointerToRawData ≡ VirtualAddress (mod align)` (e.g.
+both multiples of a FileAlignment / SectionAlignment that `align` divides) the check on the stored
+bytes is implied by the check on the rva: on such tables the fix changes no outcome. -/
+theorem C04_slice_file_congruent (img : Img) (secs : List Sec) (hs : ∀ s ∈ secs, s.InRange)
+    (rva align : Nat) (s : Sec) (hf : firstV secs rva = some s)
+    (hcong : s.prd % align = s.va % align) (ha : (img.base + rva) % align = 0) :
+    (img.base + (s.prd + (rva - s.va))) % align = 0 := by
   have hc := containsRva_nowrap (hs s (firstV_some hf).1) (firstV_some hf).2
-  exact aligned_transfer _ _ _ _ _ hc.1 (hcong s hf) ha
+  exact aligned_transfer _ _ _ _ _ hc.1 hcong ha
 
-/-- Counterexample to `C04_slice_file_sound` as stated: one section with `VirtualAddress = 2`,
-`PointerToRawData = 1`, one byte of raw data, in a two-byte buffer at address 0.  `slice(2, 1, 2)`
-passes the alignment test (address of the *rva* `0 + 2` is even) and returns the window at file
-offset 1, whose address `0 + 1` is odd. -/
-theorem C04_slice_file_sound_counterexample :
-    ∃ (img : Img) (secs : List Sec) (rva min align : Nat) (r : Ref),
-      (∀ s ∈ secs, s.InRange) ∧ rva < 4294967296 ∧
-      sliceFile img secs rva min align = .ok r ∧ ¬ RefOK img r := by
-  refine ⟨⟨#[0, 0], 0⟩, [⟨0, 0, 1, 2, 1, 1, 0⟩], 2, 1, 2, ⟨1, 1, 2⟩, ?_, by decide, by decide, by decide⟩
-  unfold Sec.InRange
+/-- The input on which `slice_file` used to hand out a misaligned window (one section with
+`VirtualAddress = 2`, `PointerToRawData = 1`, one byte of raw data, two-byte buffer at address 0,
+`slice(2, 1, 2)`: the address of the *rva* `0 + 2` is even, the bytes live at file offset 1) is now
+rejected with `Misaligned`. -/
+theorem C04_slice_file_formerly_misaligned_rejected :
+    sliceFile ⟨#[0, 0], 0⟩ [⟨0, 0, 1, 2, 1, 1, 0⟩] 2 1 2 = .err .misaligned := by
   decide
-
-/-- A request for more bytes than the raw data holds never succeeds, and what is returned lies
-inside the buffer and is aligned as requested (the C01 obligation of `slice` on file views).
-
-**FALSE AS STATED** (the alignment half of `RefOK img r`): `slice_file` tests the alignment of
-`image.as_ptr() + rva` (pe.rs:722), but the bytes it returns start at file offset
-`PointerToRawData + (rva - VirtualAddress)`.  Smallest counterexample
-(`C04_slice_file_sound_counterexample`, machine checked): `img = ⟨#[0,0], base 0⟩`,
-`secs = [{vs := 1, va := 2, rs := 1, prd := 1}]`, `rva = 2`, `min = 1`, `align = 2`:
-`sliceFile = .ok ⟨1, 1, 2⟩` and `(0 + 1) % 2 ≠ 0`.  Everything else in the statement is true
-(`C04_slice_file_sound_bounds`), `RefOK` holds iff the file offset happens to be aligned
-(`C04_slice_file_refok_iff`), and the full statement holds when `prd ≡ va (mod align)` for the
-mapping section (`C04_slice_file_sound_partial`). -/
-theorem C04_slice_file_sound (img : Img) (secs : List Sec) (hs : ∀ s ∈ secs, s.InRange)
-    (rva min align : Nat) (hr : rva < 4294967296) (r : Ref)
-    (h : sliceFile img secs rva min align = .ok r) :
-    RefOK img r ∧ min ≤ r.len ∧
-    ∃ s, firstV secs rva = some s ∧ r.off + r.len = s.prd + s.rs ∧ r.off = s.prd + (rva - s.va) := by
-  sorry
 
 /-- The slice starts at the offset `rva_to_file_offset` reports. -/
 theorem C04_slice_agrees_r2f (img : Img) (soh : Nat) (secs : List Sec) (hs : ∀ s ∈ secs, s.InRange)
     (rva align : Nat) (hr : rva < 4294967296) (hsoh : soh ≤ rva) (r : Ref)
     (h : sliceFile img secs rva 1 align = .ok r) :
     rvaToFileOffset soh secs rva = .ok r.off := by
-  obtain ⟨_, _, _, s, hf, h1, h2, h3, h4, rfl⟩ :=
+  obtain ⟨_, _, _, s, hf, h1, h2, h3, h4, _, rfl⟩ :=
     (C04_slice_file_ok_iff img secs hs rva 1 align hr r).1 h
   rw [C04_r2f_spec soh secs hs rva hr hsoh]
   unfold specR2F
@@ -160,14 +146,16 @@ theorem C04_slice_file_errors (img : Img) (secs : List Sec) (hs : ∀ s ∈ secs
   · intro s hf h1 h2 h3 h4 h5
     rw [hE, rangeFile_eq, hf]
     show (match rangeOne img.bytes.size s rva min with
-      | .ok (o, l) => Out.ok (⟨o, l, align⟩ : Ref) | .err e => .err e | .panic s => .panic s
+      | .ok (o, l) => if (img.base + o) % align = 0 then Out.ok (⟨o, l, align⟩ : Ref) else .err .misaligned
+      | .err e => .err e | .panic s => .panic s
       | .ub s => .ub s | .diverge => .diverge) = _
     rw [rangeOne_nowrap h1 h2, if_neg (by omega), if_neg (by unfold wadd32; omega)]
   · intro s hf h1 h2 h3
     have hc := containsRva_nowrap (hs s (firstV_some hf).1) (firstV_some hf).2
     rw [hE, rangeFile_eq, hf]
     show (match rangeOne img.bytes.size s rva min with
-      | .ok (o, l) => Out.ok (⟨o, l, align⟩ : Ref) | .err e => .err e | .panic s => .panic s
+      | .ok (o, l) => if (img.base + o) % align = 0 then Out.ok (⟨o, l, align⟩ : Ref) else .err .misaligned
+      | .err e => .err e | .panic s => .panic s
       | .ub s => .ub s | .diverge => .diverge) = _
     rw [rangeOne_nowrap h1 h2, if_neg (by omega), if_pos (by unfold wadd32; omega)]
 
